@@ -70,6 +70,35 @@ pub fn lookup_py(rule: usize, xs: &[i64], ys: &[f64], order: &[usize], qs: &[i64
     qs.iter().map(|q| (f64::from(c.get(&ts_to_ndt(*q))), c.node_index(*q))).collect()
 }
 
+/// two curves on one thread, looked up in the order of `seq` (false: curve a, true: curve b)
+pub fn alternate_df(rule: usize, xa: &[i64], xb: &[i64], ys: &[f64], seq: &[(bool, i64)]) -> Vec<(f64, usize)> {
+    let cal = Cal::new(vec![], vec![5, 6]);
+    let map = |xs: &[i64]| -> IndexMap<chrono::NaiveDateTime, f64> { xs.iter().zip(ys.iter()).map(|(x, y)| (ts_to_ndt(*x), *y)).collect() };
+    macro_rules! go {
+        ($i:expr) => {{
+            let a = CurveDF::try_new(Nodes::F64(map(xa)), $i, "crv", Convention::Act360, Modifier::ModF, None, cal.clone()).unwrap();
+            let b = CurveDF::try_new(Nodes::F64(map(xb)), $i, "crv", Convention::Act360, Modifier::ModF, None, cal.clone()).unwrap();
+            seq.iter().map(|(w, q)| { let c = if *w { &b } else { &a }; (f64::from(c.interpolated_value(&ts_to_ndt(*q))), c.node_index(*q)) }).collect()
+        }};
+    }
+    match rule {
+        0 => go!(LinearInterpolator::new()),
+        1 => go!(LogLinearInterpolator::new()),
+        2 => go!(LinearZeroRateInterpolator::new()),
+        3 => go!(FlatForwardInterpolator::new()),
+        _ => go!(FlatBackwardInterpolator::new()),
+    }
+}
+
+pub fn alternate_py(rule: usize, xa: &[i64], xb: &[i64], ys: &[f64], seq: &[(bool, i64)]) -> Vec<(f64, usize)> {
+    let mk = |xs: &[i64]| {
+        let m: IndexMap<chrono::NaiveDateTime, Number> = xs.iter().zip(ys.iter()).map(|(x, y)| (ts_to_ndt(*x), Number::F64(*y))).collect();
+        VerifCurve::new(m, interp_of(rule), ADOrder::Zero, "crv", Convention::Act360, Modifier::ModF, CalType::Cal(Cal::new(vec![], vec![5, 6])), None).unwrap()
+    };
+    let (a, b) = (mk(xa), mk(xb));
+    seq.iter().map(|(w, q)| { let c = if *w { &b } else { &a }; (f64::from(c.get(&ts_to_ndt(*q))), c.node_index(*q)) }).collect()
+}
+
 fn ulps(a: f64, b: f64) -> u64 {
     if a == b {
         0
@@ -184,6 +213,33 @@ pub fn check(case: &Case, idx: u64, acc: &mut Acc) {
                         );
                         break;
                     }
+                }
+            }
+            // strictly alternating look-ups: a at qa, then b at qb, for every pair of queries (round 10: a memo of
+            // the last interval found survives exactly one look-up on the other curve)
+            let (qa, qb) = (queries(&xa), queries(&xb));
+            let mut seq: Vec<(bool, i64)> = Vec::with_capacity(2 * qa.len() * qb.len());
+            for a in &qa {
+                for b in &qb {
+                    seq.push((false, *a));
+                    seq.push((true, *b));
+                }
+            }
+            let got = if *python_facing { alternate_py(rule, &xa, &xb, &ys, &seq) } else { alternate_df(rule, &xa, &xb, &ys, &seq) };
+            for (k, (w, q)) in seq.iter().enumerate() {
+                acc.eval();
+                let xs = if *w { &xb } else { &xa };
+                let i = interval_of(xs, *q);
+                let want = closed_form::<f64>(rule, xs[0], xs[i], &ys[i], xs[i + 1], &ys[i + 1], *q);
+                if got[k].1 != i || !close_scaled(got[k].0, want, 1e-12, want.abs()) {
+                    acc.violate(
+                        &format!("alternating-with-another-curve/{}", RULES[rule]),
+                        idx,
+                        cj(),
+                        json!({"position": k, "on_curve_b": w, "query_ts": q, "previous_query_ts": if k > 0 { Some(seq[k - 1].1) } else { None }, "want_interval": i, "want": want}),
+                        json!({"interval": got[k].1, "value": got[k].0}),
+                    );
+                    break;
                 }
             }
             if idx % 61 == 0 {
